@@ -377,6 +377,9 @@ def check_stable(prog: Program, res: Result) -> None:
 
 
 def check(prog: Program, res: Result) -> None:
+    # functions that compute centroids / crops / maps leave their input tensors untouched (shared with C11-pure)
+    from . import c11 as _c11
+    res.borrow(lambda p_, r_: _c11.check_pure(p_, r_, _c11.make_alias(p_)), "C04-pure", prog)
     check_pipelines(prog, res)
     check_contract_premises(prog, res)
     check_size(prog, res)
